@@ -17,6 +17,16 @@ CHECKS = {
               "2*pi, coordinate and generic axes, |p| up to 1e3.  Sampling, not proof: a violation confined to "
               "inputs outside the generated classes is not seen."),
         ref="DESIGN.md section 5 / C01"),
+    "C02": dict(
+        technique="runtime monitoring: differential execution against the vendored reference library",
+        text=("All 47 shared functions (enumerated by introspection, fewer -> inconclusive) are executed side by side "
+              "with the pinned modern_robotics 1.1.1 on equal deep copies of generated well-typed arguments; results "
+              "are compared structurally and to 1e-9 relative (1e-7 trajectories), a port exception where the reference "
+              "returns is a violation, an IK success is re-validated with the reference FK/log against the requested "
+              "tolerances, and common convergence must reach the same solution (chaotic starts and inputs where the "
+              "reference itself is discontinuous are detected by perturbation and only counted).  3e4 (quick) / "
+              "1.6e5 (thorough) calls."),
+        ref="DESIGN.md section 5 / C02", category="exploration"),
     "C03": dict(
         technique="runtime monitoring: class invariant + pose model after every step of enumerated and random histories",
         text=("A register machine drives real tm objects through every operation sequence up to length 3 over a "
